@@ -75,12 +75,15 @@ func boundsFor(env *kb.Env, nkeys int) []bound {
 }
 
 type reader struct {
-	pname string
-	api   *api
-	env   *kb.Env
-	n     int
-	agree *[]string
-	eng   string
+	lastErr string
+	lastHdr uint64
+	lastKvs []interface{}
+	pname   string
+	api     *api
+	env     *kb.Env
+	n       int
+	agree   *[]string
+	eng     string
 }
 
 func kvList(env *kb.Env, kvs []*proto.KeyValue) []interface{} {
@@ -141,6 +144,7 @@ func (r *reader) get(k int, rev uint64) {
 		}
 	}
 	env.Rec.Log(ev)
+	r.lastErr, r.lastHdr, r.lastKvs = errStr(err), rr.hdr, ev["kvs"].([]interface{})
 	r.note(fmt.Sprintf("get k%d@%d -> %v %v", k, rev, ev["err"], ev["kvs"]))
 }
 
@@ -162,6 +166,7 @@ func (r *reader) list(lo, hi bound, rev uint64, limit int64, pfx int) {
 		}
 	}
 	env.Rec.Log(ev)
+	r.lastErr, r.lastHdr, r.lastKvs = errStr(err), rr.hdr, ev["kvs"].([]interface{})
 	r.note(fmt.Sprintf("list [%d,%d)@%d lim %d -> %v %v %v", lo.ceil, hi.ceil, rev, limit, ev["err"], ev["kvs"], ev["more"]))
 }
 
